@@ -94,7 +94,7 @@ async fn hostile(server: SocketAddr, proxy: bool, stall: &str, n: usize) -> Opti
 fn run_churn(spec: &Spec) -> (Duration, bool, String, bool) {
     run_local(async {
         let adapters = NetAdapters::new();
-        let cfg = ListenerCfg { proxy: spec.proxy.then_some((true, true)), limiter: spec.limiter.then_some((3600, 2)), timeout: Duration::from_secs(20), auth_secret: None };
+        let cfg = ListenerCfg { proxy: spec.proxy.then_some((true, true)), limiter: spec.limiter.then_some((3600, 2)), timeout: Duration::from_secs(20), auth_secret: None, ..Default::default() };
         let running = start_listener(&cfg, adapters).await;
         let mut ok = true;
         for i in 0..spec.churn {
@@ -177,7 +177,7 @@ fn run_schedule(spec: &Spec) -> (Duration, bool, String, bool) {
         // a hostile client that reaches the configuration phase waits for routing forever: the backend never
         // answers for *its* address (the well-behaved client has another effective address)
         adapters.blocked_ips = if spec.proxy { (0..spec.hostile).map(|n| format!("198.51.{}.{}", 100 + n / 200, 20 + n % 200).parse().unwrap()).collect() } else { vec!["127.0.0.2".parse().unwrap()] };
-        let cfg = ListenerCfg { proxy: spec.proxy.then_some((true, true)), limiter: spec.limiter.then_some((3600, 2)), timeout: Duration::from_secs(20), auth_secret: None };
+        let cfg = ListenerCfg { proxy: spec.proxy.then_some((true, true)), limiter: spec.limiter.then_some((3600, 2)), timeout: Duration::from_secs(20), auth_secret: None, ..Default::default() };
         let running = start_listener(&cfg, adapters).await;
         let mut held = vec![];
         let mut hostile_ok = true;
